@@ -140,10 +140,10 @@ class Sx:
     __rmul__ = __mul__
 
     def __truediv__(self, o):
-        return self._b(o, lambda a, b: dag.mul(a, _safe_inv(b)))
+        return self._b(o, _div)
 
     def __rtruediv__(self, o):
-        return self._b(o, lambda a, b: dag.mul(b, _safe_inv(a)))
+        return self._b(o, lambda a, b: _div(b, a))
 
     def __pow__(self, o):
         if isinstance(o, Sx):
@@ -160,7 +160,7 @@ class Sx:
         r = dag.ONE
         for _ in range(abs(o)):
             r = dag.mul(r, self.n)
-        return Sx(r if o >= 0 else _safe_inv(r))
+        return Sx(r if o >= 0 else _div(dag.ONE, r))
 
     def __neg__(self):
         return Sx(TOK) if self.n is TOK else Sx(dag.neg(self.n))
@@ -269,6 +269,11 @@ class Sx:
         return f"Sx#{self.n.id}"
 
 
+def _div(a, b):
+    iv = _safe_inv(b)
+    return TOK if iv is TOK else dag.mul(a, iv)
+
+
 def _safe_inv(b):
     """inverse with the division-safety bookkeeping of C17: a denominator that is identically
     zero yields the IEEE token; one that may be zero under pre and PC is a safety failure."""
@@ -305,6 +310,8 @@ class Ctx:
         self.pre = []                 # (node, relset)
         self.var_range = {}           # name -> (lo, hi) for sampling
         self.z3_timeout_ms = z3_timeout_ms
+        self.z3_rlimit = 3000000
+        self.deadline = None
         self.max_paths = max_paths
         self.boundaries = boundaries
         self.check_safety = check_safety
@@ -425,6 +432,7 @@ class Ctx:
         if self.solver is None:
             self.solver = z3.Solver()
             self.solver.set("timeout", self.z3_timeout_ms)
+            self.solver.set("rlimit", self.z3_rlimit)       # deterministic budget: nlsat does not always honour the wall-clock timeout
             self.zmap = smt.Z3Map()
             self.pmap = smt.PolyMap()
             self._ztcache = {}
@@ -465,6 +473,7 @@ class Ctx:
             # second opinion: fresh non-incremental nlsat solver with a longer budget
             s2 = z3.SolverFor("QF_NRA")
             s2.set("timeout", 4 * self.z3_timeout_ms)
+            s2.set("rlimit", 4 * self.z3_rlimit)
             for a in sol.assertions():
                 s2.add(a)
             s2.add({1: t > 0, -1: t < 0, 0: t == 0}[s * sg])
@@ -676,6 +685,8 @@ class Ctx:
             raise
 
     def _compare(self, d, op):
+        if self.deadline is not None and time.time() > self.deadline:
+            raise PathLimit("exploration time budget exhausted")
         S = self.signs(d)
         if not S:
             # infeasible path (should not happen: forks are checked); treat as vacuous
@@ -811,10 +822,11 @@ class PathResult:
                  "facts", "pcsig", "tb")
 
 
-def explore(ctx, fun, want_witness=True):
+def explore(ctx, fun, want_witness=True, budget_s=None):
     """Enumerate the feasible paths of fun() under ctx.pre. fun must be re-runnable."""
     global CTX
     ctx.building = False
+    ctx.deadline = (time.time() + budget_s) if budget_s else None
     work = [[]]
     paths = []
     while work:
@@ -831,6 +843,8 @@ def explore(ctx, fun, want_witness=True):
         except PathLimit as e:
             out = None
             res.exc = e
+            if "budget" in str(e):
+                raise
         except TokenReached as e:
             out = None
             res.exc = e
